@@ -32,7 +32,7 @@
 (* exploration stops at the first step that breaks a clause and only those behaviours are printed (discriminating          *)
 (* histories of the as-coded mechanisms).                                                                                  *)
 EXTENDS Naturals, Sequences, FiniteSets, TLC, Json
-CONSTANTS MaxOps, Record, EmitBadOnly, Interferer, FirstOpens,
+CONSTANTS MaxOps, MaxLevel, KeepLast, Record, EmitBadOnly, Interferer, FirstOpens,
           SwOrderUser, SwLoadUser, SwFreshMeta, SwTotal, SwApplyReload, SwCacheWorld, SwCreateAtomic, SwFailKeeps
 Users == {"ua", "ub"}
 Dirs == Users \cup {"master"}
@@ -137,8 +137,7 @@ RefAns(disk, r, steps) == Srv(FIX, CleanSrv(disk), disk, r, steps).ans
 VARIABLES files, srv, solo, cl, ops, last, hist, done
 vars == <<files, srv, solo, cl, ops, last, hist, done>>
 NoCl == [open |-> FALSE, f |-> "-", steps |-> <<>>]
-NoLast == [req |-> Req("none", "-", "-", "-", "-", "-"), steps |-> <<>>, ans |-> A0("none"), ref |-> A0("none"), solo |-> A0("none"),
-           keeps |-> TRUE, before |-> InitDisk]
+NoLast == [req |-> Req("none", "-", "-", "-", "-", "-"), steps |-> <<>>, ans |-> A0("none"), ref |-> A0("none"), viol |-> {}]
 Init == /\ files = InitDisk /\ srv = CleanSrv(InitDisk) /\ solo = [u \in Users |-> CleanSrv(InitDisk)]
         /\ cl = [u \in Users |-> NoCl] /\ ops = 0 /\ last = NoLast /\ hist = <<>> /\ done = FALSE
 \* what a reinit of the client's own data would be answered (the observable session)
@@ -159,24 +158,27 @@ ClausesOf(L, fl) ==
   \cup (IF r.op \in {"check", "init", "reinit", "apply", "search"} /\ L.ans # L.ref THEN {"Faithful"} ELSE {})
   \cup (IF r.op = "apply" /\ L.ans.k = "stepfail" /\ ~L.keeps THEN {"FailedStepKeeps"} ELSE {})
   \cup (IF L.ans # L.solo THEN {"Isolation"} ELSE {})
-Totality == "Totality" \notin ClausesOf(last, files)
-Persistence == "Persistence" \notin ClausesOf(last, files)
-SaveExact == "SaveExact" \notin ClausesOf(last, files)
-RemoveExact == "RemoveExact" \notin ClausesOf(last, files)
-ReadOnly == "ReadOnly" \notin ClausesOf(last, files)
-Faithful == "Faithful" \notin ClausesOf(last, files)
-FailedStepKeeps == "FailedStepKeeps" \notin ClausesOf(last, files)
-Isolation == "Isolation" \notin ClausesOf(last, files)
+Totality == "Totality" \notin last.viol
+Persistence == "Persistence" \notin last.viol
+SaveExact == "SaveExact" \notin last.viol
+RemoveExact == "RemoveExact" \notin last.viol
+ReadOnly == "ReadOnly" \notin last.viol
+Faithful == "Faithful" \notin last.viol
+FailedStepKeeps == "FailedStepKeeps" \notin last.viol
+Isolation == "Isolation" \notin last.viol
 \* ---- actions: one per request kind ----
+\* (every intermediate result is bound by a quantifier over a singleton: TLC then evaluates it once)
 Do(r, steps, ncl) ==
-  LET o == Srv(SW, srv, files, r, steps)
-      so == Srv(SW, solo[r.u], files, r, steps)
-      c2 == IF r.op = "apply" /\ o.ans.k = "proof" THEN [ncl EXCEPT !.steps = Append(steps, r.s)] ELSE ncl
-      L == [req |-> r, steps |-> steps, ans |-> o.ans, ref |-> RefAns(files, r, steps), solo |-> so.ans,
-            keeps |-> IF r.op = "apply" THEN View(o.s, o.disk, r.u, cl[r.u]) = View(srv, files, r.u, cl[r.u]) ELSE TRUE, before |-> files]
-  IN /\ files' = o.disk /\ srv' = o.s /\ solo' = [solo EXCEPT ![r.u] = so.s] /\ cl' = [cl EXCEPT ![r.u] = c2]
-     /\ last' = L /\ ops' = (IF MaxOps > 0 THEN ops + 1 ELSE ops) /\ UNCHANGED done
-     /\ hist' = IF Record THEN Append(hist, [req |-> r, steps |-> steps, exp |-> L.ref, files |-> o.disk, viol |-> ClausesOf(L, o.disk)]) ELSE hist
+  \E o \in { Srv(SW, srv, files, r, steps) } : \E so \in { Srv(SW, solo[r.u], files, r, steps) } : \E ref \in { RefAns(files, r, steps) } :
+  \E keeps \in { IF r.op = "apply" THEN View(o.s, o.disk, r.u, cl[r.u]) = View(srv, files, r.u, cl[r.u]) ELSE TRUE } :
+  \E viol \in { ClausesOf([req |-> r, steps |-> steps, ans |-> o.ans, ref |-> ref, solo |-> so.ans, keeps |-> keeps, before |-> files], o.disk) } :
+     /\ files' = o.disk /\ srv' = o.s /\ solo' = [solo EXCEPT ![r.u] = so.s]
+     /\ cl' = [cl EXCEPT ![r.u] = IF r.op = "apply" /\ o.ans.k = "proof" THEN [ncl EXCEPT !.steps = Append(steps, r.s)] ELSE ncl]
+     \* KeepLast = FALSE: the step is judged here and not remembered (fewer states: what led to a state is not part of it)
+     /\ (IF KeepLast THEN TRUE ELSE Assert(viol = {}, <<"X05 clause broken", viol, r, steps>>))
+     /\ last' = (IF KeepLast THEN [req |-> r, steps |-> steps, ans |-> o.ans, ref |-> ref, viol |-> viol] ELSE NoLast)
+     /\ ops' = (IF MaxOps > 0 THEN ops + 1 ELSE ops) /\ UNCHANGED done
+     /\ hist' = IF Record THEN Append(hist, [req |-> r, steps |-> steps, exp |-> ref, files |-> o.disk, viol |-> viol]) ELSE hist
 Full(u) == u # Interferer
 Find(u) == Do(Req("find", u, "-", "-", "-", "-"), <<>>, cl[u])
 Load(u, f) == (Full(u) \/ f = "t1") /\ Do(Req("load", u, f, "-", "-", "-"), <<>>, cl[u])
@@ -197,11 +199,14 @@ Step == \E u \in Users :
            \/ \E s \in Steps : Apply(u, s)
 \* FirstOpens: only behaviours that begin with the first user opening a proof in t1 (vectors with many session requests)
 Opening == \E u \in Users \ {Interferer} : Open(u, "t1") \/ \E k \in 1..2 : OpenSaved(u, "t1", k)
-Broken == ClausesOf(last, files) # {}
+Broken == last.viol # {}
 Finish == /\ Record /\ ~done /\ MaxOps > 0 /\ ops >= 1 /\ (IF EmitBadOnly THEN Broken ELSE ops = MaxOps) /\ done' = TRUE
           /\ PrintT(<<"X05", ToJson([steps |-> hist])>>)
           /\ UNCHANGED <<files, srv, solo, cl, ops, last, hist>>
-\* MaxOps = 0: no bound (the state space is finite: the WHOLE reachable graph is explored)
-Next == (~done /\ (MaxOps = 0 \/ ops < MaxOps) /\ ~(EmitBadOnly /\ Broken) /\ (IF FirstOpens /\ ops = 0 THEN Opening ELSE Step)) \/ Finish
+\* MaxOps > 0: a counter in the state bounds the behaviours (needed when they are recorded).  MaxOps = 0: no counter - states
+\* reached by different numbers of requests are ONE state, breadth-first search visits each at its smallest depth, and only states
+\* of level <= MaxLevel (= reached by fewer than MaxLevel requests) are expanded: all behaviours of <= MaxLevel requests
+Next == (~done /\ (IF MaxOps = 0 THEN TLCGet("level") <= MaxLevel ELSE ops < MaxOps) /\ ~(EmitBadOnly /\ Broken)
+            /\ (IF FirstOpens /\ ops = 0 THEN Opening ELSE Step)) \/ Finish
 Spec == Init /\ [][Next]_vars
 =============================================================================
